@@ -846,7 +846,8 @@ class NAryMatrixRelation(AbstractBaseRelation, SimpleRepr):
         """
         if isinstance(var_values, list):
             _, s = self._slice_matrix([v.name for v in self._variables], var_values)
-            matrix = np.copy(self._m)
+            # astype copies, and widens an integer matrix when a float is set
+            matrix = self._m.astype(np.result_type(self._m, rel_value))
             matrix[s] = rel_value
             return NAryMatrixRelation(self._variables, matrix, name=self.name)
 
@@ -855,7 +856,8 @@ class NAryMatrixRelation(AbstractBaseRelation, SimpleRepr):
             for v in self._variables:
                 values.append(var_values[v.name])
             _, s = self._slice_matrix([v.name for v in self._variables], values)
-            matrix = np.copy(self._m)
+            # astype copies, and widens an integer matrix when a float is set
+            matrix = self._m.astype(np.result_type(self._m, rel_value))
             matrix[s] = rel_value
             return NAryMatrixRelation(self._variables, matrix, name=self.name)
         raise ValueError("Could not set value, must be list or dict")
